@@ -7,9 +7,10 @@ KEY_RECLOSE = "unzip/poll_close-after-close-completed"
 class C14(vlib.Spec):
     model_vo = ["theories/Push/SinkRun.vo"]
     props_vo = "theories/Props/C14.vo"
-    theorems = []
+    theorems = ["C14_lazy_init_once_partial", "C14_unzip_strict_refuted"]
+    level = "other"
     crate, group, binary = "h_push", "light", "h_push"
-    shrink_rounds = 80
+    shrink_rounds = 20
     imports = ("From Coq Require Import List NArith.\nImport ListNotations.\n"
                "From HV Require Import Push.SinkModel Push.Run Push.SinkRun.")
     trusted_base = ["coqc 8.16.1 kernel (vm_compute used for case evaluation only)",
